@@ -5,6 +5,7 @@ import (
 	"fmt"
 	"os"
 	"path/filepath"
+	"sort"
 	"strings"
 
 	"verifsim/core"
@@ -18,15 +19,16 @@ import (
 // session is one life of the storage: from Create (level 1) or from a crash
 // image (level 2) until close.
 type session struct {
-	r       *runner
-	level   int
-	walDir  string
-	snapDir string
-	dur     map[uint64][]byte // inode -> durable content
-	m       *model
-	w       *wal.WAL
-	parent  uint64 // hash of the image a level-2 session grew from
-	lost    []lrec // records the first life wrote but the image does not hold
+	r           *runner
+	level       int
+	walDir      string
+	snapDir     string
+	dur         map[uint64][]byte // inode -> durable content
+	m           *model
+	w           *wal.WAL
+	parent      uint64            // hash of the image a level-2 session grew from
+	lost        []lrec            // records the first life wrote but the image does not hold
+	leftoverTmp map[string][]byte // non-empty N.tmp files present when a second life starts
 
 	armed     bool // crash points enabled
 	opIdx     int
@@ -268,6 +270,44 @@ func b2i(b bool) int {
 
 // ---- workload -----------------------------------------------------------------
 
+const sigStaleTmp = "C16/recovery/stale-bytes-of-reused-tmp-segment"
+
+// staleTmpEvidence: the last segment continues, right behind its last
+// decodable record, with the very bytes that a leftover pipeline file (N.tmp of
+// a cut the first life did not finish) held at that offset: the file pipeline
+// reused the leftover without emptying it.
+func (s *session) staleTmpEvidence(walDir string) string {
+	if len(s.leftoverTmp) == 0 {
+		return ""
+	}
+	var last string
+	for _, name := range sortedNames(walDir) {
+		if isWal(name) {
+			last = name
+		}
+	}
+	b, err := os.ReadFile(filepath.Join(walDir, last))
+	if err != nil {
+		return ""
+	}
+	end := 0
+	if sp := recordSpans(b); len(sp) > 0 {
+		end = sp[len(sp)-1][1]
+	}
+	var names []string
+	for name := range s.leftoverTmp {
+		names = append(names, name)
+	}
+	sort.Strings(names)
+	for _, name := range names {
+		c := s.leftoverTmp[name]
+		if end+8 <= len(b) && end+8 <= len(c) && !allZero(b[end:end+8]) && bytes.Equal(b[end:end+8], c[end:end+8]) {
+			return fmt.Sprintf("segment %s holds, behind its last record (offset %d), bytes % x that are the content the leftover %s had at that offset when this life started", last, end, b[end:end+8], name)
+		}
+	}
+	return ""
+}
+
 const sigOverwritten = "C16/recovery/overwritten-entry-returned-after-snapshot"
 
 func (s *session) harness(err error, what string) bool {
@@ -468,6 +508,10 @@ func (s *session) checkClean(res *recResult, what string) bool {
 	r := s.r
 	m := s.m
 	if res.err != nil {
+		if ev := s.staleTmpEvidence(s.walDir); ev != "" {
+			r.fail(sigStaleTmp, "%s after a clean close: %s: %v; %s", what, res.stage, res.err, ev)
+			return false
+		}
 		r.fail("C16/recovery/clean-reopen-failed", "%s after a clean close: %s: %v", what, res.stage, res.err)
 		return false
 	}
